@@ -132,8 +132,10 @@ void cpputest_free_location_with_leak_detection(void* buffer, const char* file, 
 
 #if CPPUTEST_HAVE_EXCEPTIONS
 #define UT_THROW_BAD_ALLOC_WHEN_NULL(memory) if ((memory) == NULLPTR) throw CPPUTEST_BAD_ALLOC()
+#define UT_NOTHROW_ALLOC(expression) try { return expression; } catch (const CppUTestFailedException&) { return NULLPTR; }
 #else
 #define UT_THROW_BAD_ALLOC_WHEN_NULL(memory)
+#define UT_NOTHROW_ALLOC(expression) return expression
 #endif
 
 static void* threadsafe_mem_leak_operator_new (size_t size) UT_THROW(CPPUTEST_BAD_ALLOC)
@@ -147,7 +149,7 @@ static void* threadsafe_mem_leak_operator_new (size_t size) UT_THROW(CPPUTEST_BA
 static void* threadsafe_mem_leak_operator_new_nothrow (size_t size) UT_NOTHROW
 {
     MemLeakScopedMutex lock;
-    return MemoryLeakWarningPlugin::getGlobalDetector()->allocMemory(getCurrentNewAllocator(), size);
+    UT_NOTHROW_ALLOC(MemoryLeakWarningPlugin::getGlobalDetector()->allocMemory(getCurrentNewAllocator(), size));
 }
 
 static void* threadsafe_mem_leak_operator_new_debug (size_t size, const char* file, size_t line) UT_THROW(CPPUTEST_BAD_ALLOC)
@@ -169,7 +171,7 @@ static void* threadsafe_mem_leak_operator_new_array (size_t size) UT_THROW(CPPUT
 static void* threadsafe_mem_leak_operator_new_array_nothrow (size_t size) UT_NOTHROW
 {
     MemLeakScopedMutex lock;
-    return MemoryLeakWarningPlugin::getGlobalDetector()->allocMemory(getCurrentNewArrayAllocator(), size);
+    UT_NOTHROW_ALLOC(MemoryLeakWarningPlugin::getGlobalDetector()->allocMemory(getCurrentNewArrayAllocator(), size));
 }
 
 static void* threadsafe_mem_leak_operator_new_array_debug (size_t size, const char* file, size_t line) UT_THROW(CPPUTEST_BAD_ALLOC)
@@ -204,7 +206,7 @@ static void* mem_leak_operator_new (size_t size) UT_THROW(CPPUTEST_BAD_ALLOC)
 
 static void* mem_leak_operator_new_nothrow (size_t size) UT_NOTHROW
 {
-    return MemoryLeakWarningPlugin::getGlobalDetector()->allocMemory(getCurrentNewAllocator(), size);
+    UT_NOTHROW_ALLOC(MemoryLeakWarningPlugin::getGlobalDetector()->allocMemory(getCurrentNewAllocator(), size));
 }
 
 static void* mem_leak_operator_new_debug (size_t size, const char* file, size_t line) UT_THROW(CPPUTEST_BAD_ALLOC)
@@ -223,7 +225,7 @@ static void* mem_leak_operator_new_array (size_t size) UT_THROW(CPPUTEST_BAD_ALL
 
 static void* mem_leak_operator_new_array_nothrow (size_t size) UT_NOTHROW
 {
-    return MemoryLeakWarningPlugin::getGlobalDetector()->allocMemory(getCurrentNewArrayAllocator(), size);
+    UT_NOTHROW_ALLOC(MemoryLeakWarningPlugin::getGlobalDetector()->allocMemory(getCurrentNewArrayAllocator(), size));
 }
 
 static void* mem_leak_operator_new_array_debug (size_t size, const char* file, size_t line) UT_THROW(CPPUTEST_BAD_ALLOC)
